@@ -231,6 +231,7 @@ impl<const N: usize> Exec<N> {
         if dst == src || !self.targetable(dst) || !self.usable(src) {
             return Ok(Applied::Skipped);
         }
+        self.refresh_hints(dst);
         let (gi, hi) = (
             self.view.insts[dst].as_ref().unwrap(),
             self.view.insts[src].as_ref().unwrap(),
@@ -498,6 +499,7 @@ impl<const N: usize> Exec<N> {
             return Ok(Applied::Skipped);
         }
         // validate against a copy of the model, with a placeholder for $x
+        self.refresh_hints(i);
         let inst = self.view.insts[i].as_ref().unwrap();
         let mut m = inst.m.clone();
         let uses_x = cmds.iter().any(|c| match c {
@@ -768,6 +770,22 @@ impl<const N: usize> Exec<N> {
                 let k = k % bytes.len();
                 bytes.truncate(k);
                 self.stats.bump("fault.damage_truncate");
+            }
+            Damage::InlineSize(k, n) => {
+                // an inline datum is written as variant tag 1 (u32), 8 array bytes, length (u64 <= 8)
+                let mut at = Vec::new();
+                let mut i = 0;
+                while i + 20 <= bytes.len() {
+                    if bytes[i..i + 4] == [1, 0, 0, 0] && bytes[i + 12] <= 8 && bytes[i + 13..i + 20].iter().all(|b| *b == 0) {
+                        at.push(i + 12);
+                    }
+                    i += 1;
+                }
+                if at.is_empty() {
+                    return Ok(Applied::Skipped);
+                }
+                bytes[at[k % at.len()]] = n;
+                self.stats.bump("fault.damage_inline_size");
             }
             Damage::StaleTail(k) => {
                 let k = 1 + k % 64;
